@@ -281,11 +281,31 @@ def run(rep: Report, prog: Program, tier: str) -> None:
     # (which parameter kinds it keeps, whether it keeps only the ones without default)
     comps = {id(n): n for n in ast.walk(nf.node) if isinstance(n, ast.ListComp)}
     assigns: dict[str, list[ast.expr]] = {}
+    scopes: list[ast.AST] = [nf.node]
     for n in prog._own_nodes(nf.node):
         if isinstance(n, ast.Assign) and len(n.targets) == 1 and isinstance(n.targets[0], ast.Name):
             assigns.setdefault(n.targets[0].id, []).append(n.value)
         elif isinstance(n, ast.AnnAssign) and isinstance(n.target, ast.Name) and n.value is not None:
             assigns.setdefault(n.target.id, []).append(n.value)
+        elif isinstance(n, ast.Assign) and len(n.targets) == 1 and isinstance(n.targets[0], ast.Tuple) and all(isinstance(t, ast.Name) for t in n.targets[0].elts) and isinstance(n.value, ast.Call) and isinstance(n.value.func, ast.Name):
+            # `required_positional, required_kwonly = _required_parameters(signature)`: a helper of this module (new to the
+            # rules) that builds the lists and returns them as a tuple - its bindings are read as if written here
+            k_h, hf = prog.lookup_name(n.value.func.id, nf, nf.module)
+            if k_h == "func" and hf is not None and engine(prog).inline is not None and engine(prog).inline(hf):
+                rets_h = [r for r in prog._own_nodes(hf.node) if isinstance(r, ast.Return) and r.value is not None]
+                if len(rets_h) == 1 and isinstance(rets_h[0].value, ast.Tuple) and len(rets_h[0].value.elts) == len(n.targets[0].elts):
+                    scopes.append(hf.node)
+                    for tg, rv in zip(n.targets[0].elts, rets_h[0].value.elts):
+                        assigns.setdefault(tg.id, []).append(rv)
+                    for hn in prog._own_nodes(hf.node):
+                        if isinstance(hn, ast.Assign) and len(hn.targets) == 1 and isinstance(hn.targets[0], ast.Name):
+                            if not any(isinstance(tg, ast.Name) and tg.id == hn.targets[0].id and isinstance(rv, ast.Name) and rv.id == tg.id for tg, rv in zip(n.targets[0].elts, rets_h[0].value.elts)):
+                                assigns.setdefault(hn.targets[0].id, []).append(hn.value)
+                            else:
+                                # the helper's local has the caller's name: `x = [...]; return x` read as `x = [...]`
+                                assigns[hn.targets[0].id] = [hn.value]
+                        elif isinstance(hn, ast.AnnAssign) and isinstance(hn.target, ast.Name) and hn.value is not None:
+                            assigns[hn.target.id] = [hn.value]
     POS = {"POSITIONAL_ONLY", "POSITIONAL_OR_KEYWORD"}
     ALLK = POS | {"KEYWORD_ONLY", "VAR_POSITIONAL", "VAR_KEYWORD"}
 
@@ -300,18 +320,47 @@ def run(rep: Report, prog: Program, tier: str) -> None:
             v0 = vals[0]
             if (isinstance(v0, ast.List) and not v0.elts) or (isinstance(v0, ast.Call) and isinstance(v0.func, ast.Name) and v0.func.id == "list" and not v0.args):
                 # a list filled by `for p in <params>: if <filter>: lst.append(p)` = the comprehension written as a loop
-                loops = [f for f in ast.walk(nf.node) if isinstance(f, ast.For) and any(isinstance(c, ast.Call) and isinstance(c.func, ast.Attribute) and c.func.attr == "append" and isinstance(c.func.value, ast.Name) and c.func.value.id == node.id for c in ast.walk(f))]
+                loops = [f for sc in scopes for f in ast.walk(sc) if isinstance(f, ast.For) and any(isinstance(c, ast.Call) and isinstance(c.func, ast.Attribute) and c.func.attr == "append" and isinstance(c.func.value, ast.Name) and c.func.value.id == node.id for c in ast.walk(f))]
                 if len(loops) != 1 or not isinstance(loops[0].target, ast.Name) or loops[0].orelse:
                     raise AnalysisError(f"_normalize_strategy: cannot decode how `{node.id}` is filled")
                 lp = loops[0]
-                tests: list[ast.expr] = []
-                body = lp.body
-                while len(body) == 1 and isinstance(body[0], ast.If) and not body[0].orelse:
-                    tests.append(body[0].test)
-                    body = body[0].body
-                ok_app = len(body) == 1 and isinstance(body[0], ast.Expr) and isinstance(body[0].value, ast.Call) and isinstance(body[0].value.func, ast.Attribute) and body[0].value.func.attr == "append" and len(body[0].value.args) == 1 and isinstance(body[0].value.args[0], ast.Name) and body[0].value.args[0].id == lp.target.id
-                if not ok_app:
+                # the loop body read as a decision tree over the one parameter: the conjunction of branch literals under
+                # which `node.append(p)` is reached (an `if c: continue` guards what follows with `not c`; `elif` with
+                # the negation of the branches before it)
+                found: list[list[tuple[ast.expr, bool]]] = []
+
+                def walk_body(stmts: list[ast.stmt], lits: list[tuple[ast.expr, bool]]) -> list[tuple[ast.expr, bool]] | None:
+                    """returns the literals in force after the statements (None: control never continues)"""
+                    cur = list(lits)
+                    for st in stmts:
+                        if isinstance(st, ast.If):
+                            t_end = walk_body(st.body, cur + [(st.test, True)])
+                            f_end = walk_body(st.orelse, cur + [(st.test, False)])
+                            if t_end is None and f_end is None:
+                                return None
+                            if t_end is None:
+                                cur = f_end
+                            elif f_end is None:
+                                cur = t_end
+                            else:
+                                pass  # both continue: nothing new is known afterwards
+                        elif isinstance(st, ast.Continue):
+                            return None
+                        elif isinstance(st, ast.Expr) and isinstance(st.value, ast.Call) and isinstance(st.value.func, ast.Attribute) and st.value.func.attr == "append" and isinstance(st.value.func.value, ast.Name):
+                            if st.value.func.value.id == node.id:
+                                if not (len(st.value.args) == 1 and isinstance(st.value.args[0], ast.Name) and st.value.args[0].id == lp.target.id):
+                                    raise AnalysisError(f"_normalize_strategy: cannot decode how `{node.id}` is filled")
+                                found.append(list(cur))
+                        elif isinstance(st, (ast.Pass,)) or (isinstance(st, ast.Expr) and isinstance(st.value, ast.Constant)):
+                            continue
+                        else:
+                            raise AnalysisError(f"_normalize_strategy: cannot decode how `{node.id}` is filled")
+                    return cur
+
+                walk_body(lp.body, [])
+                if len(found) != 1:
                     raise AnalysisError(f"_normalize_strategy: cannot decode how `{node.id}` is filled")
+                tests = [t if pol else ast.UnaryOp(op=ast.Not(), operand=t) for t, pol in found[0]]
                 comp = ast.ListComp(elt=ast.Name(id=lp.target.id, ctx=ast.Load()), generators=[ast.comprehension(target=lp.target, iter=lp.iter, ifs=tests, is_async=0)])
                 return descriptor(comp, depth + 1)
             return descriptor(v0, depth + 1)
@@ -331,8 +380,16 @@ def run(rep: Report, prog: Program, tier: str) -> None:
             conj.extend(c.values if isinstance(c, ast.BoolOp) and isinstance(c.op, ast.And) else [c])
         for c in conj:
             ok = False
+            negated = False
+            while isinstance(c, ast.UnaryOp) and isinstance(c.op, ast.Not):
+                c, negated = c.operand, not negated
             if isinstance(c, ast.Compare) and len(c.ops) == 1 and isinstance(c.left, ast.Attribute) and isinstance(c.left.value, ast.Name) and c.left.value.id == v:
                 op, right = c.ops[0], c.comparators[0]
+                if negated:
+                    flip = {ast.In: ast.NotIn, ast.NotIn: ast.In, ast.Is: ast.IsNot, ast.IsNot: ast.Is, ast.Eq: ast.NotEq, ast.NotEq: ast.Eq}
+                    if type(op) not in flip:
+                        raise AnalysisError(f"_normalize_strategy: cannot decode the parameter filter `not {ast.unparse(c)[:60]}`")
+                    op = flip[type(op)]()
                 if isinstance(right, ast.Name) and right.id in nf.module.assigns:
                     right = nf.module.assigns[right.id]  # a hoisted module constant
                 if c.left.attr == "kind":
@@ -384,7 +441,7 @@ def run(rep: Report, prog: Program, tier: str) -> None:
                 tot += vk
             return tot
 
-        loop_vars = {f.target.id for f in ast.walk(nf.node) if isinstance(f, (ast.For, ast.comprehension)) and isinstance(f.target, ast.Name)}
+        loop_vars = {f.target.id for sc in scopes for f in ast.walk(sc) if isinstance(f, (ast.For, ast.comprehension)) and isinstance(f.target, ast.Name)}
 
         def is_any(x: ast.expr) -> bool:
             return isinstance(x, ast.Call) and isinstance(x.func, ast.Name) and x.func.id == "any" and len(x.args) == 1 and not x.keywords and isinstance(x.args[0], ast.GeneratorExp) and len(x.args[0].generators) == 1 and isinstance(x.args[0].generators[0].target, ast.Name)
